@@ -55,10 +55,22 @@ func init() {
 		routingMeta(run)
 		n := sizes(run, 150, 3000)
 		p := routing.PropSpec{ID: "C04", SpecKey: "C04", Proj: routing.ProjParams, NeedWF: true}
-		return routing.CheckStreams(run, p, []routing.StreamSpec{
+		if err := routing.CheckStreams(run, p, []routing.StreamSpec{
 			{Name: "curly", Opts: routing.FullOpts("curly"), NCfg: n, PerCfg: 20},
 			{Name: "jsr", Opts: routing.FullOpts("jsr"), NCfg: n, PerCfg: 20},
-		})
+		}); err != nil {
+			return err
+		}
+		// the values bound for one request while other requests to the same and to other routes are being
+		// routed: batches held together after routing and released; every stage must see the parameters it
+		// sees when the request is served alone
+		for _, router := range []string{"curly", "jsr"} {
+			sp := serve.PropSpec{ID: "C04", Proj: serve.ProjLog}
+			if err := serve.CheckConcurrent(run, sp, serve.GenOpts{Router: router, PanicPct: 0}, n, 6); err != nil {
+				return err
+			}
+		}
+		return nil
 	}
 
 	checks["C14"] = func(run *report.Run) error {
